@@ -1,10 +1,9 @@
 #!/bin/bash
-# Runs every claimed check (tier $1, default quick) and reports exit codes; non-zero if any != 0.
+# Runs every claimed check (tier $1, default quick) once and reports exit codes; non-zero if any != 0.
 tier=${1:-quick}; rc=0
 for p in $(/venv/bin/python -c "import json;print(' '.join(c['property_id'] for c in json.load(open('/verif/MANIFEST.json'))['checks']))"); do
-  out=$(cd /verif && /venv/bin/python -I sa/check.py $p --tier $tier 2>&1 | grep -v condarc)
-  code=${PIPESTATUS[0]}
-  /venv/bin/python -I /verif/sa/check.py $p --tier $tier >/dev/null 2>&1; code=$?
+  out=$(cd /verif && /venv/bin/python -I sa/check.py $p --tier $tier 2>&1); code=$?
+  out=$(echo "$out" | grep -v condarc)
   echo "$p exit=$code $(echo "$out" | head -1 | cut -c1-140)"
   [ $code -ne 0 ] && { rc=1; echo "$out" | grep -E "VIOLATION|ANALYSIS" | head -5; }
 done
